@@ -16,7 +16,7 @@ import (
 var (
 	// 0.1 is not a dyadic rational: sums of squares of it do not cancel exactly, which exposes
 	// numerically unstable rewrites (variance as E[x^2]-E[x]^2) on flat runs
-	sigmaPlain    = []float64{1, 0, 0.1, 2, -3, 5}
+	sigmaPlain = []float64{1, 0, 0.1, 2, -3, 5}
 	// 1.0001 next to 1: a quiet window (relative variation 1e-4) for tolerance guards that mix units
 	sigmaPlainPos = []float64{1, 0.1, 1.0001, 2, 3, 6}
 	// bars: O, H, L, C, V with L <= O,C <= H, V >= 0
@@ -226,7 +226,7 @@ func indTrieUnit(c *core.Ctx, e *cat.Ind, cfg []float64, prop string) {
 	exec := func(in [][]float64) *IndRun {
 		return RunInd(e.New(cfg), in, 0, mc.Options{})
 	}
-	walkTrie(k, n, rows, len(e.In), exec, func(nd, parent *trieNode) {
+	visit := func(nd, parent *trieNode) {
 		nodes++
 		c.Executions++
 		c.Transitions += int64(nd.run.Res.Events)
@@ -378,7 +378,37 @@ func indTrieUnit(c *core.Ctx, e *cat.Ind, cfg []float64, prop string) {
 				nonEmpty++
 			}
 		}
-	})
+	}
+	walkTrie(k, n, rows, len(e.In), exec, visit)
+	// One long series on top of the trie: a de Bruijn sequence over the well-behaved symbols (positive range and
+	// volume), i.e. a cyclic series in which EVERY window of `order` consecutive symbols occurs exactly once. It
+	// reaches the regime the depth-bounded trie cannot: thousands of values through one pipeline (running sums,
+	// recursive averages, ring buffers and trees that have wrapped many times), judged by the same oracle.
+	if prop == "C01" || prop == "C02" || prop == "C15" {
+		lrows := alphabet(e.In, true)
+		if len(e.In) > 2 || (len(e.In) == 2 && len(lrows[0]) == len(e.In) && len(lrows) == len(sigmaBars)) {
+			lrows = lrows[:5]
+		}
+		minLen := 2200
+		if c.Thorough() {
+			minLen = 20000
+		}
+		word, order := deBruijn(len(lrows), minLen)
+		in := make([][]float64, len(e.In))
+		for f := range in {
+			col := make([]float64, len(word))
+			for i, sy := range word {
+				col[i] = lrows[sy][f]
+			}
+			in[f] = col
+		}
+		nd := &trieNode{word: word, in: in, run: exec(in)}
+		c.Only = ""
+		ref.Rel, ref.LongSeries = 1e-9*float64(len(word))/10, true
+		visit(nd, nil)
+		ref.Rel, ref.LongSeries = 1e-9, false
+		c.Notes[label+" long series"] = map[string]any{"symbols": len(lrows), "de_bruijn_order": order, "length": len(word), "events": nd.run.Res.Events}
+	}
 	c.States += nodes
 	c.Evaluations += nodes
 	c.Nontrivial += nonEmpty
@@ -398,9 +428,43 @@ func fmtCols(in [][]float64) string {
 		if i > 0 {
 			s += "|"
 		}
+		if len(col) > 40 {
+			s += fmt.Sprintf("%s ... %s (%d values, the de Bruijn series of the unit)", fmtF(col[:6]), fmtF(col[len(col)-3:]), len(col))
+			continue
+		}
 		s += fmtF(col)
 	}
 	return s
+}
+
+// deBruijn returns a de Bruijn sequence B(k, order) over {0..k-1} (FKM algorithm: concatenation of the Lyndon words
+// whose length divides the order), extended by its first order-1 symbols so that every window also occurs linearly;
+// order is the smallest one with k^order >= minLen.
+func deBruijn(k, minLen int) ([]int, int) {
+	order, total := 1, k
+	for total < minLen {
+		order++
+		total *= k
+	}
+	a := make([]int, k*order)
+	var seq []int
+	var db func(t, p int)
+	db = func(t, p int) {
+		if t > order {
+			if order%p == 0 {
+				seq = append(seq, a[1:p+1]...)
+			}
+			return
+		}
+		a[t] = a[t-p]
+		db(t+1, p)
+		for j := a[t-p] + 1; j < k; j++ {
+			a[t] = j
+			db(t+1, t)
+		}
+	}
+	db(1, 1)
+	return append(seq, seq[:order-1]...), order
 }
 
 func indUnits(prop string) func(tier string) []core.Unit {
